@@ -7,6 +7,7 @@
 package main
 
 import (
+	"time"
 	"bufio"
 	"encoding/json"
 	"flag"
@@ -147,7 +148,30 @@ func runImpl() {
 			w.Flush()
 			continue
 		}
-		enc.Encode(runOne(op))
+		// a watchdog per operation: code that never returns (C14: "never a hang") must not stall the whole check - the
+		// process gives up on the operation and dies; the orchestrator records the operation as one the implementation
+		// did not answer (crash kind `died`, this message) and goes on with the rest in a new process
+		done := make(chan struct{})
+		go func(id int, mode string) {
+			select {
+			case <-done:
+			case <-time.After(opTimeout()):
+				fmt.Fprintf(os.Stderr, "vh: HANG: operation %d (%s) did not finish within %s\n", id, mode, opTimeout())
+				os.Exit(3)
+			}
+		}(op.Id, op.Mode)
+		ans := runOne(op)
+		close(done)
+		enc.Encode(ans)
 		w.Flush()
 	}
+}
+
+// opTimeout: VH_OP_TIMEOUT seconds (default 900: the slowest legitimate operations - a rig project compiled for five
+// engines, a determinism case with its many sessions - take a minute or two on a loaded machine)
+func opTimeout() time.Duration {
+	if v, err := strconv.Atoi(os.Getenv("VH_OP_TIMEOUT")); err == nil && v > 0 {
+		return time.Duration(v) * time.Second
+	}
+	return 900 * time.Second
 }
